@@ -199,6 +199,47 @@ func (cx *Ctx) c08Callback(r *Report) {
 			_ = i
 		}
 		r.check(split && nilOnOK, "callback-threshold", "ResponseCallback", cx.P.Pos(sites[0].Pos()), "the callback receives a nil error iff len(outputs) ≥ the batch response threshold, otherwise an error", "the two callback invocations are not the two sides of the len(outputs) ≥ threshold test (nil error on the ≥ side)")
+	} else if len(sites) == 1 {
+		// one call whose error argument is chosen by the threshold test:
+		// `var err error; if len(outputs) < threshold { err = … }; cb(…, err)`
+		args := sites[0].Common().Args
+		ok := false
+		if phi, isPhi := args[len(args)-1].(*ssa.Phi); isPhi && len(phi.Edges) == 2 {
+			for i, e := range phi.Edges {
+				other := phi.Edges[1-i]
+				if !isNilConst(other) || i >= len(phi.Block().Preds) {
+					continue
+				}
+				pe, pn := phi.Block().Preds[i], phi.Block().Preds[1-i]
+				if !isErrValue(e, pe, 0) {
+					continue
+				}
+				for _, df := range dominatingFacts(pe) {
+					bo, isBin := df.Cond.(*ssa.BinOp)
+					if !isBin {
+						continue
+					}
+					below := (bo.Op.String() == "<" && df.Holds) || (bo.Op.String() == ">=" && !df.Holds)
+					isLen := false
+					if c, isCall := bo.X.(*ssa.Call); isCall {
+						if b, isB := c.Common().Value.(*ssa.Builtin); isB && b.Name() == "len" {
+							isLen = true
+						}
+					}
+					// the nil edge leaves the very block that makes the test (or one that holds its opposite)
+					opposite := df.If != nil && df.If.Block() == pn
+					for _, d2 := range dominatingFacts(pn) {
+						if d2.Cond == df.Cond && d2.Holds != df.Holds {
+							opposite = true
+						}
+					}
+					if below && isLen && opposite {
+						ok = true
+					}
+				}
+			}
+		}
+		r.check(ok, "callback-threshold", "ResponseCallback", cx.P.Pos(sites[0].Pos()), "the callback's error argument is non-nil exactly when len(outputs) < the batch response threshold", "the single callback invocation does not receive {error iff len(outputs) < threshold}")
 	} else {
 		r.violate("callback-threshold", "ResponseCallback", cx.P.Pos(sites[0].Pos()), fmt.Sprintf("%d callback invocations (expected the two sides of the threshold test)", len(sites)))
 	}
